@@ -58,6 +58,37 @@ def rule_r1(ck, prog, cls_suffix, method):
                              'exporter Export is called without holding the processor\'s own mutex (held: %s)' %
                              (','.join(sorted(locks)) or 'none'),
                              path=g.describe_path(g.path(g.entry, p) or []))
+    # the lock that serialises Export is only ever released by its owner: every explicit unlock() of the processor's mutex is
+    # behind an acquisition of the same function (lock(), or the true edge of try_lock()) - an unlock by a member that does not hold
+    # the lock frees it under the thread that is inside Export, and the next OnEnd / OnEmit enters Export alongside it
+    for f in member_funcs(prog, rec['qn']):
+        if f.d.get('lambda') or not f.blocks:
+            continue
+        unl = [n for n in f.nodes if n['k'] == 'call' and strip_targs(n.get('c', '')).rsplit('::', 1)[-1] == 'unlock' and n.get('obj') is not None and
+               access_path(f, n['obj'])[:1] == ('this',) and len(access_path(f, n['obj'])) == 2 and _is_mutex_field(rec, access_path(f, n['obj'])[1])]
+        if not unl:
+            continue
+        g = Graph(prog, f, inline=None)
+        for un in unl:
+            fld = access_path(f, un['obj'])[1]
+            up = g.point_of.get((id(g.root_ctx), un['i']))
+            locks_ = [q for q in g.points if q.f is f and q.n is not None and q.n['k'] == 'call' and q.n.get('obj') is not None and
+                      access_path(f, q.n['obj']) == ('this', fld) and strip_targs(q.n.get('c', '')).rsplit('::', 1)[-1] == 'lock']
+
+            def try_true(a, b, lab, fld=fld):
+                if not lab or not isinstance(lab[0], int):
+                    return False
+                core, pol = norm_cond(lab[1], lab[0])
+                cn = lab[1].nodes[core]
+                if cn['k'] == 'call' and strip_targs(cn.get('c', '')).rsplit('::', 1)[-1] == 'try_lock' and cn.get('obj') is not None and \
+                        access_path(lab[1], cn['obj']) == ('this', fld):
+                    return (lab[2] if pol else not lab[2]) is True
+                return False
+            n_sites += 1
+            owned = up is not None and g.entry.id is not None and up.id not in g.reachable_from(g.entry, avoid=locks_, avoid_edges=try_true)
+            ck.verdict(owned, 'C03.R1', f, 'unlock-only-by-owner:%s' % f.name, un,
+                       'unlock() is behind lock() / a successful try_lock() of the same member' if owned else
+                       '%s can call %s.unlock() without holding it (the result of try_lock() is ignored, or nothing was locked): the lock is released under the thread that is inside Export and a concurrent OnEnd / OnEmit enters Export alongside it' % (short(f), fld))
     # every other member that calls Export must hold it too
     for f in member_funcs(prog, rec['qn']):
         if f.name == method or f.d.get('lambda'):
